@@ -39,6 +39,14 @@ func init() {
 	}
 	externals["(*github.com/tilinna/clock.Timer).Stop"] = func(fr *frame, a []value) value { return true }
 	externals["(*github.com/tilinna/clock.Ticker).Stop"] = nop
+	// context.WithTimeout / WithDeadline: a cancellable context whose deadline never fires
+	withCancel := func(fr *frame, a []value) value {
+		pkg := fr.i.prog.ImportedPackage("context")
+		return call(fr.i, fr, token.NoPos, pkg.Func("WithCancel"), []value{a[0]})
+	}
+	externals["context.WithTimeout"] = withCancel
+	externals["context.WithDeadline"] = withCancel
+	externals["time.runtimeNano"] = func(fr *frame, a []value) value { return int64(0) }
 	externals["math/rand.Float64"] = func(fr *frame, a []value) value { return float64(0.5) }
 	externals["math/rand.Int63"] = func(fr *frame, a []value) value { return int64(4) }
 	externals["math/rand.Intn"] = func(fr *frame, a []value) value { return int(0) }
